@@ -62,6 +62,8 @@ def check_entries(ctx, case, t1, t2, dd, verbose, t2paths):
                 n += 1
                 if verbose == 0:
                     continue
+                if path is None:
+                    ctx.count('entry_without_path'); continue         # a location with no string form (UUID / frozenset / non-finite key): no claim to check
                 try:
                     old = resolve(t1, path)
                 except Exception as e:
@@ -95,6 +97,8 @@ def check_entries(ctx, case, t1, t2, dd, verbose, t2paths):
             items = body.items() if isinstance(body, dict) else [(p, None) for p in body]
             for path, v in items:
                 n += 1
+                if path is None:
+                    ctx.count('entry_without_path'); continue
                 try:
                     got = resolve(t2, path)
                 except Exception as e:
@@ -111,6 +115,8 @@ def check_entries(ctx, case, t1, t2, dd, verbose, t2paths):
             items = body.items() if isinstance(body, dict) else [(p, None) for p in body]
             for path, v in items:
                 n += 1
+                if path is None:
+                    ctx.count('entry_without_path'); continue
                 try:
                     got = resolve(t1, path)
                 except Exception as e:
@@ -165,6 +171,18 @@ def run(ctx, impl_only=False):
     pairs += FAM.alias_pairs(ctx, max(12, n // 12))
     pairs += FAM.rich_pairs(ctx, n // 4)
     pairs += FAM.hostile_pairs(ctx, n // 4)
+    # equal numbers written differently (Decimal exponents, int / float of one value inside one type) are not a change; keys that have no literal
+    # form (UUID, frozenset, timedelta, non-finite float, a tuple holding a Decimal) give entries without a path, or with one that resolves
+    import decimal as _dc, uuid as _uuid, datetime as _dtm
+    D_ = _dc.Decimal
+    for (x_, y_) in [(D_('12.50'), D_('12.5')), (D_('1E+1'), D_('10')), (D_('0'), D_('0.00')), (D_('-0'), D_('0')), (0.0, -0.0)]:
+        for w_ in (lambda v: {'k': v, 'z': 1}, lambda v: [v, [1]], lambda v: {'a': {'b': [0, v]}}, lambda v: (v, {'q': 1})):
+            pairs.append((w_(x_), w_(y_)))
+            pairs.append((w_(x_), w_(D_('7') if isinstance(y_, D_) else 7.5)))
+    for k_ in [_uuid.UUID(int=0xa11ce), frozenset({1, 2}), _dtm.timedelta(1), _dtm.time(1, 2), float('inf'), (1, D_('2.5'))]:
+        pairs.append(({'sessions': {k_: {'hits': [1, 2, 3]}, str(k_): {'hits': [0, 0, 8]}}}, {'sessions': {k_: {'hits': [1, 2, 4]}, str(k_): {'hits': [0, 0, 8]}}}))
+        pairs.append(({k_: 1, 'a': 2}, {k_: 2, 'b': 2}))
+        pairs.append(([{k_: [1]}, 0], [{k_: [1, 2]}, 0]))
     # dictionary keys that a repr would escape (backslash, control and non-printing characters): the reported paths still lead to the values
     for k in ['C:\\temp\\new.txt', 'a\nb', 'tab\there', 'nb\xa0sp', 'back\\', "q'uote", 'a\\nb', '\x7f', 'é\u200b']:
         inner = ctx.rng.choice([lambda v: {'v': v}, lambda v: [0, v], lambda v: v])
